@@ -38,6 +38,7 @@ mod t6w;
 mod t6r;
 mod t6r2;
 mod t6w2;
+mod t6w3;
 
 const FEATURES: &[&str] = &["aes-crypto", "bzip2", "deflate", "time", "zstd"];
 
@@ -3758,6 +3759,7 @@ fn main() {
                     }
                 }
                 "tfn" => t6w2::register_tfn(&reg, &all, name),
+                "gfn" => t6w3::register_gfn(name),
                 "struct" | "sstruct" => {
                     for it in &all {
                         if let Item::Struct(st) = it {
@@ -3929,6 +3931,7 @@ fn main() {
                     }
                     "sfn" => t6w::translate_sfn(&reg, &failed, &all, name),
                     "tfn" => t6w2::translate_tfn(&reg, &failed, &all, name),
+                    "gfn" => t6w3::translate_gfn(&reg, &failed, &all, name),
                     "afn" => t6w2::translate_afn(&reg, &failed, &all, name),
                     "struct" | "sstruct" => {
                         for it in &all {
@@ -4087,6 +4090,9 @@ fn main() {
         }
         if fo.body.contains("Rs.Aes") || fo.body.contains("Rs.Hmac") {
             writeln!(text, "import ZipVerif.Basic.RsAes").unwrap();
+        }
+        if fo.body.contains("Rs.PathOps") || fo.body.contains("Rs.Component") || fo.body.contains("Rs.Str.") {
+            writeln!(text, "import ZipVerif.Basic.RsPath").unwrap();
         }
         for i in &fo.imports {
             // a dotted name is a module outside `Gen/` (hand-written glue), taken verbatim
